@@ -130,3 +130,31 @@ func init() {
 		fmt.Println("partial successes:", bad)
 	}
 }
+
+func init() {
+	extraCmds["cancelone"] = func(in string) {
+		f, _ := os.ReadFile(in)
+		var c Case
+		if err := json.Unmarshal(f, &c); err != nil {
+			panic(err)
+		}
+		kinds, _ := countEvents(&c)
+		fmt.Println("events", len(kinds))
+		for _, mode := range []cancelMode{cancelBlockAll, cancelQueryBlock} {
+			for k := 1; k <= len(kinds); k++ {
+				res, hung, leak, _, fired := cancelOnce(&c, k, mode)
+				if hung {
+					fmt.Println("HUNG mode", mode, "k", k, kinds[k-1])
+					buf := make([]byte, 1<<20)
+					n := runtime.Stack(buf, true)
+					fmt.Println(string(buf[:n]))
+					return
+				}
+				_ = res
+				_ = leak
+				_ = fired
+			}
+		}
+		fmt.Println("no hang")
+	}
+}
